@@ -810,6 +810,26 @@ pub fn multi_callee_store(rng: &mut Rng) -> String {
         }
         o.push_str(&format!("shout(calls{tag})\n"));
     }
+    // stores whose initialiser MUTATES another variable through a method (the statement writes two locals: the
+    // receiver and its target), read or not read afterwards
+    let arr = format!("xs{tag}");
+    o.push_str(&format!("make {arr} get [1, 2, 3, 4]\n"));
+    for k in 0..1 + rng.below(3) {
+        let v = format!("m{tag}_{k}");
+        let call = match rng.below(3) {
+            0 => format!("{arr}.pop()"),
+            1 => format!("{arr}.push({k})"),
+            _ => format!("{arr}.reverse()"),
+        };
+        match rng.below(3) {
+            0 => o.push_str(&format!("make {v} get {call}\n")),
+            1 => o.push_str(&format!("make {v} get {call}\nshout({v})\n")),
+            _ => o.push_str(&format!("make {v} get 0\n{v} get {call}\n{v} get 9\nshout({v})\n")),
+        }
+        if rng.chance(1, 2) {
+            o.push_str(&format!("shout({arr})\n"));
+        }
+    }
     o.push_str("shout(\"end\")\n");
     o
 }
